@@ -133,6 +133,13 @@ def TEMPLATES():
         ('op:SE3*point', 'X*p', [A, L, L, L, L], lambda a: sm.SE3(T3(a), check=False) * [a[4], a[2], a[1]]),
         ('op:SO3*SO3', 'X*Y', [A, A, A], lambda a: sm.SO3.Rx(a[0]) * sm.SO3.Ry(a[1]) * sm.SO3.Rz(a[2])),
         ('op:SO3*point', 'X*p', [A, A, L], lambda a: (sm.SO3.Rx(a[0]) * sm.SO3.Ry(a[1])) * [a[2], 1, 2]),
+        # scalar (number or symbol) on either side of a pose, + and - with a scalar: plain arrays
+        ('op:scalar*SE3', 's*X', [G, A], lambda a: a[0] * sm.SE3.Rx(a[1])), ('op:SE3*scalar', 'X*s', [G, A], lambda a: sm.SE3.Rx(a[1]) * a[0]),
+        ('op:scalar*SO3', 's*X', [G, A], lambda a: a[0] * sm.SO3.Ry(a[1])), ('op:scalar+SE3', 's+X', [G, A], lambda a: a[0] + sm.SE3.Rz(a[1])),
+        ('op:SE3-scalar', 'X-s', [G, A], lambda a: sm.SE3.Rz(a[1]) - a[0]), ('op:SE3/scalar', 'X/s', [G, A], lambda a: sm.SE3.Rz(a[1]) / a[0]),
+        # == / != value by value on objects holding several values, some symbolic, some numeric (equal only to rounding)
+        ('op:==', 'mixed sequence', [A], lambda a: [bool(v_) for v_ in (sm.SE3([sm.SE3.Rx(a[0]), sm.SE3.Rz(0.1) * sm.SE3.Rz(0.2), sm.SE3.Ry(a[0])]) == sm.SE3([sm.SE3.Rx(a[0]), sm.SE3.Rz(0.3), sm.SE3.Rx(a[0] + 1)]))]),
+        ('op:!=', 'mixed sequence', [A], lambda a: [bool(v_) for v_ in (sm.SO3([sm.SO3.Rx(a[0]), sm.SO3.Rz(0.1) * sm.SO3.Rz(0.2)]) != sm.SO3([sm.SO3.Rx(a[0]), sm.SO3.Rz(0.3)]))]),
         # the same entries in their other documented call forms: separate scalars with unit='deg', option order, t= as tuple / ndarray
         ('base.eul2r', "phi,theta,psi,unit='deg'", [D, D, D], lambda a: b.eul2r(a[0], a[1], a[2], unit='deg')),
         ('base.eul2tr', "phi,theta,psi,unit='deg'", [D, D, D], lambda a: b.eul2tr(a[0], a[1], a[2], unit='deg')),
